@@ -125,11 +125,12 @@ let () =
     | None -> ()
     | Some p ->
       let head = String.sub line 0 p in
-      let in_domain = (head = "m") in   (* "n": Strings with embedded NUL (F9); "g": parsed from mutated bytes: outside wf *)
+      let in_domain = (head = "m" || head = "t") in   (* "n": Strings with embedded NUL (F9); "g": parsed from mutated bytes: outside wf *)
       let body = String.sub line (p+1) (String.length line - p - 1) in
       let ops = List.filter (fun s -> s <> "") (String.split_on_char ';' body) in
       let regs = Array.make 8 empty_msg in
       let st = Buffer.create 64 in
+      let tm_seed = ref None in
       let reg s = let r = int_of_string s in if r < 0 || r > 7 then failwith "bad register" else r in
       let apply r o = let (m', ok) = step regs.(r) o in regs.(r) <- m'; ok in
       List.iter (fun s ->
@@ -166,6 +167,8 @@ let () =
           | ["mf"; r; name] -> apply (reg r) (OMoveToFront (bytes_of_hex name))
           | ["mb"; r; name] -> apply (reg r) (OMoveToBack (bytes_of_hex name))
           | ["cn"; r; o; nw] -> apply (reg r) (OCopyName (bytes_of_hex o, bytes_of_hex nw))
+          | ["ct"; r; s2] -> regs.(reg r) <- tmpl_of_msg regs.(reg s2); true
+          | ["tm"; seed] -> tm_seed := Some (int_of_string seed); true
           | ["um"; r; seed] ->
               let bytes = List.map int_of_byte (flatten regs.(reg r)) in
               let mb = List.map (fun i -> byte_tab.(i)) (mutate bytes (int_of_string seed)) in
@@ -189,6 +192,29 @@ let () =
       Printf.printf "%d M %s\n" k (desc m0);
       Printf.printf "%d F %d %s\n" k (int_of_n (flattened_size m0)) (hex_of flat);
       Printf.printf "%d C %d %d\n" k (int_of_n (chk_msg hash false m0)) (int_of_n (chk_msg hash true m0));
+      if String.length head > 0 && head.[0] = 't' then begin
+        let t = m1 in
+        Printf.printf "%d TT %s %s\n" k (desc t) (hex_of (flatten t));
+        if not (same_shape t m0) then Printf.printf "%d TF skip\n" k
+        else match tmpl_flatten t m0 with
+          | None -> Printf.printf "%d TF unmodelled\n" k
+          | Some tb ->
+              Printf.printf "%d TF %d %s\n" k (int_of_n (tmpl_flattened_size t m0)) (hex_of tb);
+              if int_of_n (tmpl_flattened_size t m0) <> List.length tb then
+                Printf.printf "%d ORACLE FAIL model: tmpl_flattened_size <> length (tmpl_flatten t p)\n" k;
+              (match tmpl_unflatten t tb with
+               | Ok u ->
+                   Printf.printf "%d TU ok %s %s\n" k (desc u) (hex_of (flatten u));
+                   if u <> rt m0 then Printf.printf "%d ORACLE FAIL model: tmpl_unflatten t (tmpl_flatten t p) <> rt p\n" k
+               | _ -> Printf.printf "%d TU err\n" k);
+              (match !tm_seed with
+               | None -> ()
+               | Some sd ->
+                   let mb = List.map (fun i -> byte_tab.(i)) (mutate (List.map int_of_byte tb) sd) in
+                   (match tmpl_unflatten t mb with
+                    | Ok v -> Printf.printf "%d TM ok %s %s\n" k (desc v) (hex_of (flatten v))
+                    | _ -> Printf.printf "%d TM err\n" k))
+      end;
       (match unflatten flat with
        | Ok u0 ->
            Printf.printf "%d U ok %s\n" k (desc u0);
